@@ -122,10 +122,14 @@ def gen_triple(rng, fmt=None):
                 old_items.append(("ent", it[1], render_value(fmt, rng, "L"), com))
         elif it[0] in ("sec", "pi", "lic"):
             old_items.append(it)
+        elif it[0] == "attr":
+            if rng.random() < 0.7:
+                old_items.append(it if rng.random() < 0.5 else ("attr", it[1], it[2] + "-l10n"))
         elif rng.random() < 0.6:
             old_items.append(it)
     if rng.random() < 0.3:
-        head = [it for it in old_items if it[0] in ("sec", "pi", "lic") and it[1] != "unfilter emptyLines"]
+        head = [it for it in old_items if it[0] in ("sec", "pi", "lic", "attr")
+                and it[1] != "unfilter emptyLines"]
         body = [it for it in old_items if it not in head and it != ("pi", "unfilter emptyLines")]
         rng.shuffle(body)
         old_items = head + body
@@ -177,7 +181,9 @@ def gen_triple(rng, fmt=None):
 
 # -------------------------------------------------------------------- oracle ---
 def describe(case):
-    return {"fmt": case["fmt"], "ref": case["ref"], "old": case["old"], "new_data": case["new_data"]}
+    return {"fmt": case["fmt"], "ref": case["ref"], "old": case["old"], "new_data": case["new_data"],
+            "records": {k: case[k] for k in ("ref_items", "old_items", "new_recs", "obsolete", "junk")
+                        if k in case}}
 
 
 def entity_list(fmt, entries):
@@ -361,20 +367,52 @@ def run(chk, runner_ok):
 
 
 def replay(chk, path):
+    """re-run the recorded cases: oracle failures through the oracle, disagreements
+    through implementation and model; 1 if anything still fails"""
+    from harness import common
     data = json.load(open(path))
     rc = 0
+    sub = common.Check(chk.prop, chk.tier, chk.seed)
+    sub.known = []
     for f in data.get("failures", []):
         c = f["case"]
-        if "ref" in c:
-            name = FNAME[c["fmt"]]
+        before = len(sub.failures)
+        name = FNAME[c["fmt"]]
+        if c.get("records"):
+            case = dict(c["records"], fmt=c["fmt"], ref=c["ref"], old=c["old"], new_data=c["new_data"])
             ref = walk_bytes(name, c["ref"].encode("utf-8"))
             old = walk_bytes(name, c["old"].encode("utf-8"))
-            _, text = serialize_impl(name, ref, old, c["new_data"])
-            print("signature", f["signature"], "case", c, "output", repr(text))
+            res, text = serialize_impl(name, ref, old, c["new_data"])
+            if text is None:
+                sub.fail("serialize-raises", c, res)
+            else:
+                oracle_serialize(sub, case, ref, text)
         else:
-            print("case", c, f["detail"])
-        rc = 1
-    for d in data.get("disagreements", []):
-        print("disagreement", d)
-        rc = 1
+            run_witnesses(sub)
+        still = sub.failures[before:]
+        print("recorded", f["signature"], "->", "still fails: " + still[0]["signature"] if still else "passes now")
+        for x in still[:1]:
+            print(json.dumps(x, indent=1, default=str)[:3000])
+        rc |= bool(still)
+    dis = data.get("disagreements", [])
+    if dis:
+        model = Model("C16")
+        for d in dis:
+            c = d["case"]
+            if isinstance(c, dict) and "ref" in c and not c.get("shared"):
+                name = FNAME[c["fmt"]]
+                ref = walk_bytes(name, c["ref"].encode("utf-8"))
+                old = walk_bytes(name, c["old"].encode("utf-8"))
+                res, _ = serialize_impl(name, ref, old, c["new_data"])
+                out = model.call([model_request(name, ref, old, c["new_data"])])[0]
+                print("suite", d["suite"], "case", c, "impl", res[:1], "model", out[:1],
+                      "agree" if res == out else "DISAGREE")
+                rc |= res != out
+            else:
+                print("disagreement", d)
+                rc = 1
+    for o in data.get("broken_obligations", []):
+        if o["kind"] in ("theorem", "build", "translator", "hygiene"):
+            print("broken obligation:", o["name"], o["detail"][-500:])
+            rc = 1
     return int(rc)
